@@ -8,7 +8,8 @@ HARNESS = "Go harness (generators, canonicalisation, oracle), Lean driver line p
 PROPS = {
     "C01": {
         "id": "C01",
-        "lean_modules": ["JT.Props.C01"],
+        "lean_modules": ["JT.Props.C01", "JT.Props.C01Src"],
+        "extractors": ["golean"],
         "functional_ops": [],
         "rule": ("`enc`: source frame (random header of both layouts, fragmented/encrypted/reserved bits, BCD phone incl. zeros and hex nibbles) "
                  "x reply ID x platform serial (special values 0,1,7d,7e,7d7e,ffff) x body 0..1023 bytes (boundary lengths 0,1,999,1000,1001,1022,1023; "
@@ -29,7 +30,8 @@ PROPS = {
 
 PROPS["C02"] = {
     "id": "C02",
-    "lean_modules": ["JT.Props.C02"],
+    "lean_modules": ["JT.Props.C02", "JT.Props.C02Src"],
+    "extractors": ["golean"],
     "functional_ops": ["dec", "decv"],
     "rule": ("`decv`: frames built by the harness from the standard's layout (both versions, fragment/encryption/reserved bits, all phone shapes, bodies 0..1023) incl. the tolerated unescaped-7d checksum; "
              "`dec`: their truncations, extensions, single-bit and single-byte corruptions, wrong declared length with valid checksum, flipped fragment/version bit, bad escape pairs, short headers with valid checksum, wrong checksum; "
@@ -218,8 +220,8 @@ _CODEC_TB = [KERNEL, AXIOMS, TIE, HARNESS,
 
 PROPS["C03"] = {
     "id": "C03",
-    "lean_modules": ["JT.Props.C03"],
-    "extractors": ["layouts", "bittables", "addlen", "paramtable"],
+    "lean_modules": ["JT.Props.C03", "JT.Props.C03Src"],
+    "extractors": ["layouts", "bittables", "addlen", "paramtable", "golean"],
     "functional_ops": ["tot"],
     "rule": ("for each of 47 decoders (35 message types x header version x active-safety dialect where it matters, 5 vendor extension parsers stand-alone and plugged into 0x0200, jt808 and jt1078 frame decoders): valid bodies from the C07 value generators, "
              "every count/length byte perturbed (0, 1, ff, +-1) at the first ~40 offsets, truncation at every offset, extension by 1..3 bytes, splices of two valid bodies, random bodies; every (additional-information id, length) and (terminal-parameter id, length) pair; "
